@@ -259,7 +259,7 @@ theorem timeout_retransmits_first_unacked (e : Ep) (hd : WSeg) (tl : List WSeg)
 /-! ## orderly close -/
 
 /-- **C02**: `Shutdown(write)` queues the FIN behind everything written so far, as the last write-list entry ... -/
-theorem fin_queued_last (e : Ep) : (queueFin e).snd.writeList = e.snd.writeList ++ [{ data := [] }] ∧ (queueFin e).sndClosed = true ∧
+theorem fin_queued_last (e : Ep) : (queueFin e).snd.writeList = e.snd.writeList ++ [{ data := [], gOff := e.snd.gW.length }] ∧ (queueFin e).sndClosed = true ∧
     (queueFin e).snd.sndNxtList = addS e.snd.sndNxtList 1 := ⟨rfl, rfl, rfl⟩
 
 /-- ... and nothing can be written behind it -/
